@@ -59,6 +59,25 @@ def encodeClass (c : Compiled) (ci : Nat) (row : List Entry) : List Nat :=
       if k + 1 == row.length then markLast (entryCodes c e) else entryCodes c e)
     first :: body
 
+/-- the two cursors of the decoder as the encoder replays them: read cursor (16-bit codes), write
+    cursor (machine words), and the largest lead of the write cursor seen so far -/
+structure Cur where
+  enc : Nat
+  dec : Nat
+  hr : Nat
+
+/-- one v-table entry: one or two codes read, one word written -/
+def stepCur (S : Nat) (a : Cur) (e : Entry) : Cur :=
+  let enc := a.enc + (if e.vp ≠ 0 then 1 else 2)
+  let dec := a.dec + 1
+  { enc, dec, hr := max a.hr (4 * dec - (S + enc)) }
+
+def rowCur (S : Nat) (row : List Entry) (a : Cur) : Cur := row.foldl (stepCur S) a
+
+/-- one class: its first-slot code, then its entries -/
+def clsCur (S : Nat) (rows : List (List Entry)) (a : Cur) : Cur :=
+  rows.foldl (fun a row => rowCur S row { a with enc := a.enc + 1 }) a
+
 def encode (c : Compiled) : Emitted :=
   let arities := c.methods.map (fun m => m.vp.length)
   let slotsN := (arities.map (fun a => 2 * a - 1)).sum
@@ -67,12 +86,7 @@ def encode (c : Compiled) : Emitted :=
   let vt := (List.zipIdx c.vtbl).flatMap (fun (row, ci) => encodeClass c ci row)
   let decN := (c.vtbl.map List.length).sum
   -- headroom: replay the cursor positions entry by entry
-  let (_, _, hr) := (List.zipIdx c.vtbl).foldl (fun (acc : Nat × Nat × Nat) (row, _ci) =>
-      let enc0 := acc.1 + 1
-      row.foldl (fun (a : Nat × Nat × Nat) (e : Entry) =>
-        let enc := a.1 + (if e.vp ≠ 0 then 1 else 2)
-        let dec := a.2.1 + 1
-        (enc, dec, max a.2.2 (4 * dec - (slotsN + enc)))) (enc0, acc.2.1, acc.2.2)) (0, 0, 0)
+  let hr := (clsCur slotsN c.vtbl { enc := 0, dec := 0, hr := 0 }).hr
   let dt := (List.zipIdx (c.methods.zip c.outs)).flatMap (fun ((m, o), _mi) =>
     if m.vp.length < 2 then []
     else
@@ -177,6 +191,19 @@ def decodeEntries (em : Emitted) (ms : List (Nat × Nat)) (starts : List (Option
             | _ => .error (.fault "decode: no dispatch table for this method")
     if st.last then .ok st else decodeEntries em ms starts f st
 
+/-- one class record: skipped when its static cell was already filled, else its first slot is read,
+    its v-table pointer is the write cursor biased by the first slot, and its entries are decoded -/
+def decodeClass (em : Emitted) (ms : List (Nat × Nat)) (starts : List (Option Nat))
+    (acc : DecSt × List (Option Int) × List Nat) (cell : Nat) : Except Err (DecSt × List (Option Int) × List Nat) :=
+  if acc.2.2.contains cell then pure (acc.1, acc.2.1 ++ [none], acc.2.2)
+  else do
+    let (first, st) ← fetch em acc.1
+    let vp : Int := (st.dec.length : Int) - (first : Int)
+    if st.last then pure (st, acc.2.1 ++ [some vp], acc.2.2 ++ [cell])
+    else
+      let st ← decodeEntries em ms starts (em.vtbls.length + 1) st
+      pure (st, acc.2.1 ++ [some vp], acc.2.2 ++ [cell])
+
 /-- `decode_dispatch_data`: `cells` gives, per class record in catalog order, the key of its static
     v-table pointer cell (records of one class share a cell and are decoded once) -/
 def decode (em : Emitted) (ms : List (Nat × Nat)) (cells : List Nat) : Except Err Decoded := do
@@ -185,16 +212,7 @@ def decode (em : Emitted) (ms : List (Nat × Nat)) (cells : List Nat) : Except E
     let n := 2 * m.1 - 1
     (acc.1 ++ [acc.2.take n], acc.2.drop n)) (([] : List (List Nat)), em.slots)
   let (dt, starts) ← decodeDtbls ms em.dtbls
-  let (st, vps, _) ← cells.foldlM (fun (acc : DecSt × List (Option Int) × List Nat) (cell : Nat) => do
-    let (st, vps, done) := acc
-    if done.contains cell then pure (st, vps ++ [none], done)
-    else
-      let (first, st) ← fetch em st
-      let vp : Int := (st.dec.length : Int) - (first : Int)
-      if st.last then pure (st, vps ++ [some vp], done ++ [cell])
-      else
-        let st ← decodeEntries em ms starts (em.vtbls.length + 1) st
-        pure (st, vps ++ [some vp], done ++ [cell]))
+  let (st, vps, _) ← cells.foldlM (decodeClass em ms starts)
     (({ enc := 0, dec := [], last := false } : DecSt), ([] : List (Option Int)), ([] : List Nat))
   pure { vptrs := vps, vtbls := st.dec, dtbls := dt, ss }
 
